@@ -30,13 +30,16 @@ class Sym:
 def lark_call_options(repo: Repo) -> Tuple[Dict[str, Any], Dict[str, str], ast.Call]:
     """Keyword arguments of the ``Lark(...)`` call in ``CELParser.__init__``."""
     mod = repo.mod("celparser")
-    init = mod.func("CELParser.__init__")
-    call = None
-    for node in ast.walk(init):
-        if isinstance(node, ast.Call) and dotted(node.func) in ("Lark", "lark.Lark"):
-            call = node
-    if call is None:
-        raise AnchorMissing("celparser.CELParser.__init__: no Lark(...) call")
+    # the call may sit in __init__ itself or in a helper it delegates to: take the Lark(...) calls of the whole module
+    calls = [(q, node) for q, fn in mod.functions() for node in ast.walk(fn)
+             if isinstance(node, ast.Call) and dotted(node.func) in ("Lark", "lark.Lark")]
+    calls = [(q, c) for i, (q, c) in enumerate(calls) if all(c is not c2 for _q2, c2 in calls[:i])]
+    if not calls:
+        raise AnchorMissing("celparser: no Lark(...) call")
+    in_class = [(q, c) for q, c in calls if q.startswith("CELParser.")]
+    if len(in_class) != 1:
+        raise AnalysisError(f"celparser: {len(in_class)} Lark(...) calls in CELParser ({[q for q, _ in calls]}); cannot tell which builds the parser")
+    call = in_class[0][1]
     opts: Dict[str, Any] = {}
     callbacks: Dict[str, str] = {}
     for kw in call.keywords:
@@ -59,7 +62,12 @@ def lark_call_options(repo: Repo) -> Tuple[Dict[str, Any], Dict[str, str], ast.C
         try:
             opts[kw.arg] = ast.literal_eval(kw.value)
         except ValueError:
-            raise AnalysisError(f"Lark option {kw.arg} is not a literal: {ast.unparse(kw.value)}")
+            from .consteval import NotConstant, const_in
+
+            try:
+                opts[kw.arg] = const_in(mod, kw.value, mod.cls("CELParser"), None)
+            except NotConstant:
+                raise AnalysisError(f"Lark option {kw.arg} is not a constant: {ast.unparse(kw.value)}")
     return opts, callbacks, call
 
 
